@@ -150,7 +150,7 @@ MutateAll(h, side, ps) == IF ps = {} THEN h
 \* <<operator, left operand type, right operand type>>; the result is a fresh value, the operands
 \* keep their content
 OpTable == {
-    <<"+", "Keyvalues", "Keyvalues">>, <<"+", "Keyvalues", "list">>,
+    <<"+", "Keyvalues", "KVRoot">>, <<"+", "Keyvalues", "list">>, <<"+", "KVRoot", "list">>, <<"+", "Keyvalues", "Keyvalues">>,
     <<"+", "Vec", "Vec">>, <<"-", "Vec", "Vec">>, <<"*", "Vec", "float">>, <<"*", "float", "Vec">>,
     <<"/", "Vec", "float">>, <<"//", "Vec", "float">>, <<"%", "Vec", "float">>, <<"neg", "Vec", "">>,
     <<"abs", "Vec", "">>, <<"round", "Vec", "">>, <<"+", "Vec", "tuple">>, <<"+", "tuple", "Vec">>, <<"-", "tuple", "Vec">>,
@@ -160,6 +160,6 @@ OpTable == {
     <<"+", "FrozenVec", "Vec">>, <<"+", "Vec", "FrozenVec">>, <<"@", "FrozenVec", "Matrix">>,
     <<"@", "FrozenMatrix", "Matrix">>, <<"@", "Matrix", "FrozenMatrix">>, <<"@", "FrozenMatrix", "FrozenMatrix">>,
     <<"@", "FrozenMatrix", "Angle">>, <<"@", "FrozenAngle", "Angle">>, <<"@", "FrozenAngle", "Matrix">>,
-    <<"@", "Vec", "FrozenMatrix">>, <<"@", "Vec", "FrozenAngle">>, <<"cross", "Vec", "Vec">>, <<"lerp", "Vec", "Vec">>
+    <<"@", "Vec", "FrozenMatrix">>, <<"@", "Vec", "FrozenAngle">>, <<"cross", "Vec", "Vec">>
 }
 =============================================================================
